@@ -236,7 +236,12 @@ func (f *c03fake) Do(req *http.Request) (*http.Response, error) {
 		return nil, errors.New("connection refused (injected)")
 	}
 	if kind.status != 200 {
+		// error bodies carry a Content-Length of their own: shorter than the 5-byte block for 500,
+		// longer for every other status (a client must never take it for the size of the block)
 		msg := []byte("injected failure\n")
+		if kind.status == 500 {
+			msg = []byte("no\n")
+		}
 		return &http.Response{StatusCode: kind.status, Status: fmt.Sprintf("%d injected", kind.status), Header: http.Header{},
 			ContentLength: int64(len(msg)), Body: &c03body{f: f, data: msg, endErr: io.EOF, eofWith: true}}, nil
 	}
@@ -910,6 +915,8 @@ func c03configs(thorough bool) []c03cfg {
 	add(c03cfg{Scen: "cache", Readers: "seq", Services: 1, Retries: 0, Hint: false, Size: 0, Bound: pick(1, 2), small: !thorough})
 	add(c03cfg{Scen: "cache", Readers: "par", Services: 1, Retries: 0, Hint: true, Mix: true, Size: 5, Bound: pick(1, 2)})
 	add(c03cfg{Scen: "cache", Readers: "par", Services: 1, Retries: 0, Hint: false, Mix: true, Size: 1, Bound: 1})
+	// a failed answer (with its own Content-Length) before the answer that is taken, locator without size hint
+	add(c03cfg{Scen: "cache", Readers: "seq", Services: 2, Retries: 0, Hint: false, Size: 5, Free: true, Mini: true, Bound: 0})
 	if thorough {
 		add(c03cfg{Scen: "cache", Readers: "par", Services: 2, Retries: 1, Hint: false, Size: 5, Bound: 1})
 		add(c03cfg{Scen: "cache", Readers: "par+1", Services: 1, Retries: 0, Hint: false, Size: 5, Bound: 1})
